@@ -378,6 +378,10 @@ func c16Renegotiate(c *ev.Ctx) {
 
 func runC16(c *ev.Ctx) {
 	c16Renegotiate(c)
+	c16RenamedVsDrop(c)
+	if hungFlag {
+		return
+	}
 	r := c.Rand("c16")
 	shapes := []struct{ G, K int }{{2, 1}, {2, 2}, {4, 1}, {4, 4}, {16, 2}, {16, 8}, {64, 4}, {64, 8}, {4, 2}, {16, 1}}
 	rounds := c.Sz(8, 80)
